@@ -155,9 +155,11 @@ impl LinkFlowState<role::SenderMarker> {
         );
 
         if let Some(link_credit_rcv) = flow.link_credit {
-            let link_credit = delivery_count_rcv
-                .saturating_add(link_credit_rcv)
-                .saturating_sub(state.delivery_count);
+            // delivery-count is an RFC-1982 serial number: the deliveries the
+            // receiver has not seen yet are counted with wrapping arithmetic
+            // and taken off the credit it granted
+            let in_flight = state.delivery_count.wrapping_sub(delivery_count_rcv);
+            let link_credit = link_credit_rcv.saturating_sub(in_flight);
             state.link_credit = link_credit;
         }
 
